@@ -129,9 +129,9 @@ def scanTok (pre : Str) : Input → Tok × Input
     else if c = ':' then (⟨pre, .colon, [c]⟩, r)
     else if c = ',' then (⟨pre, .comma, [c]⟩, r)
     else if c = '?' then (⟨pre, .quest, [c]⟩, r)
-    else if c = '-' && r.head? == some '>' then (⟨pre, .arrow, "->".toList⟩, r.drop 1)
-    else if c = '[' && r.head? == some ']' then (⟨pre, .arr, "[]".toList⟩, r.drop 1)
-    else if c = '[' && r.take 7 == "string]".toList then (⟨pre, .dict, "[string]".toList⟩, r.drop 7)
+    else if c = '-' && r.head? == some '>' then (⟨pre, .arrow, ['-', '>']⟩, r.drop 1)
+    else if c = '[' && r.head? == some ']' then (⟨pre, .arr, ['[', ']']⟩, r.drop 1)
+    else if c = '[' && r.take 7 == ['s', 't', 'r', 'i', 'n', 'g', ']'] then (⟨pre, .dict, ['[', 's', 't', 'r', 'i', 'n', 'g', ']']⟩, r.drop 7)
     else if isWordChar c then (⟨pre, .word, c :: r.takeWhile isWordChar⟩, r.dropWhile isWordChar)
     else (⟨pre, .bad, [c]⟩, r)
 
@@ -177,11 +177,11 @@ def pTypeF : Nat → List Tok → Option (Ty × List Tok)
       | u :: _ => if glued u then (pTypeF n ts).map fun (ty, r) => (.dict ty, r) else none
       | [] => none
     | .word =>
-      if t.text = "bool".toList then some (.bool, ts)
-      else if t.text = "int".toList then some (.int, ts)
-      else if t.text = "float".toList then some (.float, ts)
-      else if t.text = "string".toList then some (.string, ts)
-      else if t.text = "object".toList then some (.object, ts)
+      if t.text = ['b', 'o', 'o', 'l'] then some (.bool, ts)
+      else if t.text = ['i', 'n', 't'] then some (.int, ts)
+      else if t.text = ['f', 'l', 'o', 'a', 't'] then some (.float, ts)
+      else if t.text = ['s', 't', 'r', 'i', 'n', 'g'] then some (.string, ts)
+      else if t.text = ['o', 'b', 'j', 'e', 'c', 't'] then some (.object, ts)
       else if isTypeName t.text then some (.typename t.text, ts)
       else none
     | .lpar => pParenF n ts
